@@ -160,3 +160,24 @@ Proof.
     rewrite <- exp_0. left. now apply exp_increasing.
   - exact Hmean.
 Qed.
+
+(* THE FLOAT ORACLE'S REFERENCE for the density (harness/src/c17.rs, `float_pdf`), literally as
+   the harness evaluates it in f64: d = x - mean, y = -(d d) / (2 var), norm = 1 / sqrt(2 pi var),
+   reference = norm * exp y.  Over the reals the transcribed `probability` equals it for every
+   mean, var > 0 and x; the exponent is never positive (so exp y <= 1: the `maximal` flag) and the
+   normaliser is positive. *)
+Theorem float_oracle_pdf_reference (mean var x : R) : 0 < var ->
+  let d := x - mean in
+  let y := - (d * d) / (2 * var) in
+  let norm := 1 / sqrt (2 * PI * var) in
+  probability Rops (mkGaussian mean var) x = norm * exp y /\ y <= 0 /\ exp y <= 1 /\ 0 < norm.
+Proof.
+  intros Hv d y norm.
+  assert (Hy : y <= 0).
+  { unfold y. pose proof (Rle_0_sqr d) as Hsq. unfold Rsqr in Hsq.
+    unfold Rdiv. assert (0 < / (2 * var)) by (apply Rinv_0_lt_compat; lra). nra. }
+  split; [exact (pdf_real mean var x Hv)|]. split; [exact Hy|]. split.
+  - destruct Hy as [Hlt | ->]; [|rewrite exp_0; lra].
+    rewrite <- exp_0. left. now apply exp_increasing.
+  - unfold norm. apply Rdiv_lt_0_compat; [lra|]. apply sqrt_lt_R0. pose proof PI_RGT_0. nra.
+Qed.
